@@ -29,10 +29,9 @@ carries the three hypotheses explicitly:
   (H3) `Benign`: no exception escapes an input update (a where-condition or a watched
        expression that raises aborts the dispatch of the remaining triggers / callbacks).
 
-A fourth recorded finding is outside those theorems: the plain `in` operator (`x in expr`) is not
-dispatched to the expression at all (class rx spells the method `__contains_`); the model mirrors
-what happens instead (`Stmt.isin`), the oracle flags it, and it is not an operator form the
-table theorem requires.
+The plain `in` operator (`x in expr`) cannot be an expression (Python coerces `__contains__`'s result
+to bool); since /repo c09ac3d `rx.__contains__` refuses it with TypeError (`Stmt.isin`; before that
+fix the check found it answering `len(value) > 0`).  The oracle accepts the plain result or a refusal.
 
 Only property theorems and their non-vacuity examples live here; the proof is in
 Rx/*Lemmas.lean (umbrella: Rx/Lemmas.lean).
@@ -320,8 +319,8 @@ every comparison, every unary operator, indexing and `math.floor/ceil/trunc` has
 of the recognised shape, the function it applies exists, the reflected form applies the *same* function
 as the forward form with `reverse=True`, and the forward form with `reverse=False`.
 Not required here, on purpose: `__round__` (present, but its body builds the operand tuple first — not
-of the certified shape); `__contains__` (ABSENT from class rx: the method is spelled `__contains_`; `x in
-expr` is the recorded finding `in-operator-answers-nonempty`, modelled by `Stmt.isin`); `__iter__`,
+of the certified shape); `__contains__` (refuses with TypeError, like `__len__`: `x in expr` cannot be an
+expression; `Stmt.isin`); `__iter__`,
 `__bool__`, `__len__` (deliberately not expressions); `__call__` (method calls, `Stmt.meth` / `meth2`). -/
 theorem operator_table_complete :
     Generated.RxOps.classFound = true ∧ ∀ d ∈ dispatchable, entryOK d = true := by
